@@ -57,6 +57,10 @@ seq_t dtw_warping_paths{{ suffix }}{{ suffix2 }}(seq_t *wps,
     {%- endif %}
 
     DTWWps p = dtw_wps_parts(l1, l2, settings);
+    {%- if "affinity" in suffix %}
+    // Affinities are not squared distances: use the penalty as given
+    p.penalty = settings->penalty;
+    {%- endif %}
 
     {%- if "affinity" not in suffix %}
     if (settings->use_pruning || settings->only_ub) {
